@@ -39,7 +39,12 @@ pub enum Field {
     Missing,
     /// a string that looks like a number ("7"): not a numeric field — aggregates must skip it like any other text
     NumText(i64),
+    /// a float from `FRACS`: decimals that have no exact binary form and magnitudes that absorb small addends,
+    /// so that a sum depends on which events are folded (and a running total that adds and subtracts drifts)
+    Frac(u8),
 }
+
+const FRACS: [f64; 8] = [0.1, 0.2, 0.3, 0.7, 1e17, -1e17, 1.0e-3, 12345.678];
 
 #[derive(Clone, Debug, Serialize, Deserialize, PartialEq)]
 pub struct Ev {
@@ -82,6 +87,9 @@ fn mk_event(i: usize, ts: u64, e: &Ev) -> StreamEvent {
         Field::NumText(v) => {
             data.insert("v".to_string(), Value::String(v.to_string()));
         }
+        Field::Frac(k) => {
+            data.insert("v".to_string(), Value::Number(FRACS[k as usize % FRACS.len()]));
+        }
     }
     let src = if e.wrong_source { "other" } else { "src" };
     let ty = if e.wrong_type { "Other" } else { "E" };
@@ -93,6 +101,7 @@ fn mk_event(i: usize, ts: u64, e: &Ev) -> StreamEvent {
 fn numeric(e: &Ev) -> Option<f64> {
     match e.field {
         Field::Int(v) | Field::Num(v) => Some(v as f64),
+        Field::Frac(k) => Some(FRACS[k as usize % FRACS.len()]),
         _ => None,
     }
 }
@@ -158,6 +167,23 @@ fn reset_aggregators() {
 fn check_window_aggregates(w: &TimeWindow, evs: &[Ev], site: &str, step: usize, obs: &mut Obs) -> Result<(), Violation> {
     let members: Vec<usize> = w.events().iter().map(|e| idx_of(&e.id)).collect();
     let f = fold(&members, evs);
+    // Windows of integral values: the fold is exact in any order and the comparison is equality. Windows holding
+    // inexact values: "the same fold over exactly its events" is read as a fold in SOME order — any two orders
+    // agree to within rounding, i.e. a tiny fraction of the sum of the magnitudes folded — so a result is accepted
+    // iff it is that close to the in-order fold. A total that still carries events which have left the window
+    // (or lost precision to them) is not.
+    let inexact = members.iter().any(|i| matches!(evs[*i].field, Field::Frac(_)));
+    let scale: f64 = members.iter().filter_map(|i| numeric(&evs[*i])).map(f64::abs).sum();
+    let nvals = members.iter().filter(|i| numeric(&evs[**i]).is_some()).count().max(1) as f64;
+    let near = move |got: f64, want: f64, scale: f64| got == want || (inexact && (got - want).abs() <= 1e-9 * scale);
+    let near_o = move |got: Option<f64>, want: Option<f64>, scale: f64| match (got, want) {
+        (Some(g), Some(w)) => near(g, w, scale),
+        (None, None) => true,
+        _ => false,
+    };
+    if inexact {
+        obs.count("probe.window_holding_inexact_values");
+    }
     let bad = |what: &str, got: String, want: String| {
         Err(Violation::new(
             PROP,
@@ -171,10 +197,10 @@ fn check_window_aggregates(w: &TimeWindow, evs: &[Ev], site: &str, step: usize, 
     if w.count() != f.count {
         return bad("count", w.count().to_string(), f.count.to_string());
     }
-    if w.sum("v") != f.sum {
+    if !near(w.sum("v"), f.sum, scale) {
         return bad("sum", w.sum("v").to_string(), f.sum.to_string());
     }
-    if w.average("v") != f.avg {
+    if !near_o(w.average("v"), f.avg, scale / nvals) {
         return bad("average", format!("{:?}", w.average("v")), format!("{:?}", f.avg));
     }
     if w.min("v") != f.min {
@@ -201,10 +227,10 @@ fn check_window_aggregates(w: &TimeWindow, evs: &[Ev], site: &str, step: usize, 
     if a(AggregationType::Count) != Some(f.count as f64) {
         return bad("aggregator-count", format!("{:?}", a(AggregationType::Count)), f.count.to_string());
     }
-    if a(AggregationType::Sum { field: fld() }) != Some(f.sum) {
+    if !near_o(a(AggregationType::Sum { field: fld() }), Some(f.sum), scale) {
         return bad("aggregator-sum", format!("{:?}", a(AggregationType::Sum { field: fld() })), f.sum.to_string());
     }
-    if a(AggregationType::Average { field: fld() }) != f.avg {
+    if !near_o(a(AggregationType::Average { field: fld() }), f.avg, scale / nvals) {
         return bad("aggregator-average", format!("{:?}", a(AggregationType::Average { field: fld() })), format!("{:?}", f.avg));
     }
     if a(AggregationType::Min { field: fld() }) != f.min {
@@ -711,7 +737,7 @@ impl World for WindowWorld {
                 "WindowedStream is driven in tumbling mode only (the mode the placement sentence is about)".into(),
                 "'oldest-first' under the retention cap is accepted by arrival order or by timestamp".into(),
                 "StreamAlphaNode: acceptance and retention are three-valued over the instants the clock showed during the call; a stamp ahead of the clock after a clock step-back is neither demanded nor forbidden".into(),
-                "field values are integral so sums are exact in any order".into(),
+                "four runs in five: field values are integral, sums are exact in any order and aggregates are compared by equality; the others hold decimals and mixed magnitudes, and a sum or average is accepted iff it lies within 1e-9 x (sum of the magnitudes folded) of the in-order fold".into(),
             ],
             hang_is_a_verdict: true,
             required_probes: vec![
@@ -732,6 +758,7 @@ impl World for WindowWorld {
                 "probe.text_field_that_looks_numeric",
                 "probe.stream_of_more_than_1024_events",
                 "probe.timestamps_beyond_2_to_the_31",
+                "probe.window_holding_inexact_values",
             ],
             quick_runs: 1_500_000,
             thorough_runs: 40_000_000,
@@ -815,6 +842,15 @@ impl World for WindowWorld {
             let offset = *rng.pick(&[0i64, 0, 0, 1_700_000_000_000, (1 << 31) - 20, (1i64 << 32) - 20, 1i64 << 53]);
             for e in events.iter_mut() {
                 e.ts += offset;
+            }
+        }
+        // one run in five of the kinds whose aggregates are compared number by number: the numeric values are
+        // decimals without an exact binary form and magnitudes that absorb small addends
+        if matches!(kind, Kind::Record | Kind::Manager) && rng.chance(1, 5) {
+            for e in events.iter_mut() {
+                if matches!(e.field, Field::Int(_) | Field::Num(_)) && rng.chance(3, 4) {
+                    e.field = Field::Frac(rng.below(8) as u8);
+                }
             }
         }
         WinTrace { hash_seed, kind, duration_ms, cap, max_windows, events, tick_pattern }
